@@ -74,6 +74,11 @@ const fuzzID = "fuzz"
 // panicking frame.
 const keyPipelineNilInstance = prop + "/fuzz/init-panic/pipeline.Store.decode-nil-instance"
 
+// keyConnectorNullDoc: connector.Store.decode unmarshals into a **Instance, so the
+// document `null` sets the pointer to nil and the following conn.State
+// dereferences it (NOTES.md, finding F2).
+const keyConnectorNullDoc = prop + "/fuzz/init-panic/connector.Store.decode-null-document"
+
 // fuzzOne runs one document; it returns the violations (never calls t.Fatal so
 // that TestReplayC17 can use it as well).
 func fuzzOne(entity string, raw []byte) (viol []violation, skipped string) {
@@ -89,6 +94,9 @@ func fuzzOne(entity string, raw []byte) (viol []violation, skipped string) {
 		key := prop + "/fuzz/init-panic/" + stage
 		if stage == "pipeline" && strings.Contains(err.Error(), "pipeline.(*Store).decode") && strings.Contains(err.Error(), "nil pointer dereference") {
 			key = keyPipelineNilInstance
+		}
+		if stage == "connector" && strings.Contains(err.Error(), "connector.(*Store).decode") && strings.Contains(err.Error(), "nil pointer dereference") {
+			key = keyConnectorNullDoc
 		}
 		return []violation{{key, "Init panics on a stored document: " + truncate(err.Error(), 1500)}}, ""
 	}
